@@ -36,6 +36,18 @@ struct Value {
     opcodetype opcode;
     std::vector<uint8_t> data;
     std::string str;
+    // net number of '[' minus ']' in a text; the text of a comment ('#' to the end of the line) does not count
+    static int bracket_balance(const char* v, size_t vlen) {
+        int depth = 0;
+        for (size_t i = 0; i < vlen; ++i) {
+            if (v[i] == '#') {
+                while (i < vlen && v[i] != '\n' && v[i] != '\r') ++i;
+                continue;
+            }
+            depth += (v[i] == '[') - (v[i] == ']');
+        }
+        return depth;
+    }
     static std::vector<Value> parse_args(const std::vector<const char*> args) {
         std::vector<Value> result;
         std::string accum = "";
@@ -46,7 +58,7 @@ struct Value {
                 // inside a bracketed script that was split over several arguments (e.g. by the shell): keep joining
                 // until the brackets balance, then parse the whole "[...]" as one value
                 accum += std::string(" ") + v;
-                for (size_t i = 0; i < vlen; ++i) depth += (v[i] == '[') - (v[i] == ']');
+                depth += bracket_balance(v, vlen);
                 if (depth <= 0) {
                     result.emplace_back(accum.c_str(), accum.length());
                     accum = "";
@@ -57,8 +69,7 @@ struct Value {
             if (vlen > 0) {
                 // brackets embed
                 if (v[0] == '[') {
-                    depth = 0;
-                    for (size_t i = 0; i < vlen; ++i) depth += (v[i] == '[') - (v[i] == ']');
+                    depth = bracket_balance(v, vlen);
                     if (depth > 0) {
                         accum = v;
                         continue;
@@ -88,16 +99,28 @@ struct Value {
         for (size_t i = 0; i <= args_len; i++) {
             char ch = args_string[i - (i == args_len)];
             if (ch == '[') {
-                // start counting starting brackets, and stop when we hit depth 0
+                // start counting starting brackets, and stop when we hit depth 0 (brackets in the text of a comment are text)
                 size_t depth = 1;
                 while ((++i) <= args_len && depth > 0) {
                     ch = args_string[i];
+                    if (ch == '#') {
+                        while (i < args_len && args_string[i] != '\n' && args_string[i] != '\r') i++;
+                        continue;
+                    }
                     depth += (ch == '[') - (ch == ']');
                 }
                 if (depth > 0) {
                     fprintf(stderr, "parse error, unclosed [bracket (expected: ']') in \"%s\"\n", args_string);
                     exit(1);
                 }
+                // the closing bracket ends the token; what follows it (a blank, a comment, the next token) is examined in its own right
+                // (it used to be skipped unseen: "[a]# note" assembled the note, "[a][b]" lost a bracket)
+                args_ptr[arg_idx] = strndup(&args_string[start], i - start);
+                args.push_back(args_ptr[arg_idx]);
+                arg_idx++;
+                start = i;
+                i--;
+                continue;
             }
             if (i == args_len || (ch == ']' || ch == ' ' || ch == '\t' || ch == '\n' || ch == '\r' || ch == '#')) {
                 if (start == i) {
